@@ -149,6 +149,9 @@ class FnExec:
         if isinstance(node, ast.Subscript):
             root, steps = self.path_of(node.value, st, pc)
             idx = self.expr(node.slice, st, pc)
+            if isinstance(node.slice, ast.UnaryOp) and isinstance(node.slice.op, ast.USub) and isinstance(node.slice.operand, ast.Constant):
+                cont = self.read_path(st, root, steps)
+                if isinstance(cont.t, ListT): idx = Val(INT, cont.t.len(cont.z) - node.slice.operand.value)      # constant negative index counts from the end
             return root, steps + [("index", idx)]
         raise Unsupported(f"not an lvalue: {type(node).__name__}")
 
@@ -254,6 +257,9 @@ class FnExec:
         if op == "Mult" and isinstance(a.t, ListT) and isinstance(b.t, IntT):
             ln = z3.simplify(a.t.len(a.z))
             if not (z3.is_int_value(ln) and ln.as_long() == 1): raise Unsupported("list * int with len != 1")
+            e0 = z3.simplify(a.t.at(a.z, 0))
+            if isinstance(a.t.elem, IntT) and z3.is_int_value(e0):      # [c] * n for a literal c: the canonical representation (every slot c), e.g. [0] * n is the all-zero tuple body
+                n_ = z3.If(b.z > 0, b.z, 0); return Val(a.t, a.t.make(n_, z3.K(z3.IntSort(), e0), kind=z3.BoolVal(False)))
             out = fresh(a.t, "rep"); q = fresh_int("q")
             pc.append(a.t.len(out.z) == z3.If(b.z > 0, b.z, 0))
             pc.append(z3.ForAll([q], z3.Implies(z3.And(0 <= q, q < b.z), a.t.at(out.z, q) == a.t.at(a.z, 0))))
@@ -356,6 +362,8 @@ class FnExec:
             if nm in ("list", "tuple") and len(n.args) == 1:
                 a = self.expr(n.args[0], st, pc)
                 if isinstance(a.t, ListT):
+                    if not a.t.tagged and nm == "tuple" and isinstance(a.t.elem, IntT):      # a tuple of ints built from a plain list: the tagged (list/tuple) representation
+                        tt = ListT(INT, tagged=True); return Val(tt, tt.make(a.t.len(a.z), a.t.arr(a.z), kind=z3.BoolVal(True)))
                     return Val(a.t, a.t.make(a.t.len(a.z), a.t.arr(a.z), kind=z3.BoolVal(nm == "tuple"))) if a.t.tagged else a
                 raise Unsupported(f"{nm}() of {a.t!r}")
             if nm == "iter" and len(n.args) == 1: return self.expr(n.args[0], st, pc)
@@ -688,6 +696,8 @@ class FnExec:
         if isinstance(tgt, ast.Subscript):
             root, steps = self.path_of(tgt.value, st, pc)
             cont = self.read_path(st, root, steps); idx = self.expr(tgt.slice, st, pc)
+            if isinstance(cont.t, ListT) and isinstance(tgt.slice, ast.UnaryOp) and isinstance(tgt.slice.op, ast.USub) and isinstance(tgt.slice.operand, ast.Constant):
+                idx = Val(INT, cont.t.len(cont.z) - tgt.slice.operand.value)
             if isinstance(cont.t, ListT):
                 self.branch_exc(pc, z3.Not(z3.And(idx.z >= 0, idx.z < cont.t.len(cont.z))), "IndexError", tgt)
             self.write_path(st, root, steps + [("index", idx)], v); return
@@ -913,6 +923,7 @@ class FnExec:
         ge = {nm: fresh_int(f"{nm}x{k}") for nm in ghosts0}
         pc_e = list(pc) + wf_e + implicit(ge) + [z for _, z in invs(st_e, ge)]
         for nm, z in ge.items(): st_e.env[nm + "_exit"] = Val(INT, z)
+        for nm, e in lspec.get("exit_snap", {}).items(): st_e.env[nm] = self.spec_expr(e, st_e, [])      # ghost snapshot of the state in which the loop is left
         gz = z3.Not(guard(ge)) if guard_state is None else z3.Not(guard_state(st_e, pc_e))
         if not z3.is_false(z3.simplify(gz)):
             outs.append(Outcome("normal", st_e, pc_e + [gz]))
